@@ -197,6 +197,7 @@ namespace pika::concurrency::detail {
                 ltag + chunk->left.load(std::memory_order_relaxed).get_next_tag());
             rtag = static_cast<tag_t>(
                 rtag + chunk->right.load(std::memory_order_relaxed).get_next_tag());
+            PIKA_VERIF_POST("dq.tags", chunk, ltag, rtag);
         }
 
         // Tagged pointer to be stored in a link of a node that is not yet
